@@ -88,8 +88,9 @@ def St : Pipe → Type
 def tupV (a b : Val) : Val := .tup [a, b]
 
 mutual
-/-- the iterator's `hasNext`/`next` closures -/
-def machine : (p : Pipe) → Machine p.St Val
+/-- the iterator's `hasNext`/`next` closures; `fuel` is what the loops that are unbounded in Go
+    (`DropWhile`, `Filter`, `FilterNot`, `FlatMap`, `FilterMap`) get -/
+def machineF (fuel : Nat) : (p : Pipe) → Machine p.St Val
   | src id xs => ofSeq (some (srcTag id)) xs
   | seq xs => ofSeq none xs
   | arg _ => ofSeqS
@@ -103,31 +104,31 @@ def machine : (p : Pipe) → Machine p.St Val
   | zero => It.zero
   | rev xs => reverseSeq xs
   | pullseq id xs => pull (ofSeq (some (srcTag id)) xs)
-  | map p f => It.map f (machine p)
-  | tap p f => tapEach f (machine p)
-  | take p n => It.take n (machine p)
-  | drop p _ => machine p
-  | takew p f => takeWhile f (machine p)
-  | dropw p f => dropWhile FUEL f (machine p)
-  | filter p f => It.filter FUEL f (machine p)
-  | filternot p f => filterNot FUEL f (machine p)
-  | concat p q => It.concat ((parts p).join (parts q))
-  | flatmap p pre k => flatMap FUEL (fun x => do let _ ← pre x; build k x) (machine k) (machine p)
-  | filtermap p f => filterMap FUEL f (machine p)
-  | scan p _ f => It.scan f (machine p)
-  | zip p q => It.map (fun ab => pure (tupV ab.1 ab.2)) (It.zip (machine p) (machine q))
+  | map p f => It.map f (machineF fuel p)
+  | tap p f => tapEach f (machineF fuel p)
+  | take p n => It.take n (machineF fuel p)
+  | drop p _ => machineF fuel p
+  | takew p f => takeWhile f (machineF fuel p)
+  | dropw p f => dropWhile fuel f (machineF fuel p)
+  | filter p f => It.filter fuel f (machineF fuel p)
+  | filternot p f => filterNot fuel f (machineF fuel p)
+  | concat p q => It.concat ((partsF fuel p).join (partsF fuel q))
+  | flatmap p pre k => flatMap fuel (fun x => do let _ ← pre x; buildF fuel k x) (machineF fuel k) (machineF fuel p)
+  | filtermap p f => filterMap fuel f (machineF fuel p)
+  | scan p _ f => It.scan f (machineF fuel p)
+  | zip p q => It.map (fun ab => pure (tupV ab.1 ab.2)) (It.zip (machineF fuel p) (machineF fuel q))
   | zip3 p q r => It.map (fun abc => pure (Val.tup [abc.1, abc.2.1, abc.2.2]))
-      (It.zip3 (machine p) (machine q) (machine r))
-  | zipidx p => It.map (fun ia => pure (tupV (.int ia.1) ia.2)) (zipWithIndex (machine p))
+      (It.zip3 (machineF fuel p) (machineF fuel q) (machineF fuel r))
+  | zipidx p => It.map (fun ia => pure (tupV (.int ia.1) ia.2)) (zipWithIndex (machineF fuel p))
 
 /-- the field `concat` of the Go struct: the iterators a later `Concat` will iterate over -/
-def parts : (p : Pipe) → MMachine p.St Val
-  | concat p q => concatParts ((parts p).join (parts q))
-  | drop p _ => parts p
-  | p => MMachine.single (machine p)
+def partsF (fuel : Nat) : (p : Pipe) → MMachine p.St Val
+  | concat p q => concatParts ((partsF fuel p).join (partsF fuel q))
+  | drop p _ => partsF fuel p
+  | p => MMachine.single (machineF fuel p)
 
 /-- run the constructors, innermost first; `x` is the argument of the enclosing `FlatMap` callback -/
-def build : (p : Pipe) → Val → GoM p.St
+def buildF (fuel : Nat) : (p : Pipe) → Val → GoM p.St
   | src _ _, _ => pure (0 : Nat)
   | seq _, _ => pure (0 : Nat)
   | arg n, x => pure ((List.range n).map (fun (i : Nat) => Val.int (x.asInt + (i : Int))), (0 : Nat))
@@ -138,21 +139,21 @@ def build : (p : Pipe) → Val → GoM p.St
   | zero, _ => pure ()
   | rev xs, _ => pure xs.length
   | pullseq id xs, _ => runInit (pullInit (ofSeq (some (srcTag id)) xs)) ((0 : Nat), none)
-  | map p _, x => build p x
-  | tap p _, x => build p x
-  | take p _, x => do let s ← build p x; pure (s, (0 : Nat))
-  | drop p n, x => do let s ← build p x; runInit (It.drop n (machine p)) s
-  | takew p _, x => do let s ← build p x; pure (s, {})
-  | dropw p _, x => do let s ← build p x; pure (s, {})
-  | filter p _, x => do let s ← build p x; pure (s, {})
-  | filternot p _, x => do let s ← build p x; pure (s, {})
-  | concat p q, x => do let s ← build p x; let t ← build q x; pure ((s, t), {})
-  | flatmap p _ _, x => do let s ← build p x; pure (s, none)
-  | filtermap p _, x => do let s ← build p x; pure (s, none)
-  | scan p z _, x => do let s ← build p x; pure (s, { sum := z })
-  | zip p q, x => do let s ← build p x; let t ← build q x; pure (s, t)
-  | zip3 p q r, x => do let s ← build p x; let t ← build q x; let u ← build r x; pure (s, t, u)
-  | zipidx p, x => do let s ← build p x; pure ((0 : Nat), s)
+  | map p _, x => buildF fuel p x
+  | tap p _, x => buildF fuel p x
+  | take p _, x => do let s ← buildF fuel p x; pure (s, (0 : Nat))
+  | drop p n, x => do let s ← buildF fuel p x; runInit (It.drop n (machineF fuel p)) s
+  | takew p _, x => do let s ← buildF fuel p x; pure (s, {})
+  | dropw p _, x => do let s ← buildF fuel p x; pure (s, {})
+  | filter p _, x => do let s ← buildF fuel p x; pure (s, {})
+  | filternot p _, x => do let s ← buildF fuel p x; pure (s, {})
+  | concat p q, x => do let s ← buildF fuel p x; let t ← buildF fuel q x; pure ((s, t), {})
+  | flatmap p _ _, x => do let s ← buildF fuel p x; pure (s, none)
+  | filtermap p _, x => do let s ← buildF fuel p x; pure (s, none)
+  | scan p z _, x => do let s ← buildF fuel p x; pure (s, { sum := z })
+  | zip p q, x => do let s ← buildF fuel p x; let t ← buildF fuel q x; pure (s, t)
+  | zip3 p q r, x => do let s ← buildF fuel p x; let t ← buildF fuel q x; let u ← buildF fuel r x; pure (s, t, u)
+  | zipidx p, x => do let s ← buildF fuel p x; pure ((0 : Nat), s)
 where
   /-- run a construction-time computation on a state -/
   runInit {σ : Type} (m : IM σ Unit) (s : σ) : GoM σ := fun lg =>
@@ -160,6 +161,13 @@ where
     | (.ok (), s', lg') => (.ok s', lg')
     | (.error p, _, lg') => (.error p, lg')
 end
+
+/-- what the oracle runs: the machines with the fuel constant `FUEL`.  (Go has no fuel; the theorems
+    of `Spec/C12.lean` are about `machineF fuel` for EVERY `fuel` above the explicit bound
+    `Pipe.need`.) -/
+def machine (p : Pipe) : Machine p.St Val := machineF FUEL p
+def parts (p : Pipe) : MMachine p.St Val := partsF FUEL p
+def build (p : Pipe) (x : Val) : GoM p.St := buildF FUEL p x
 
 /-- total number of elements handed out by the instrumented sources of the pipeline -/
 def pulls : (p : Pipe) → p.St → Nat
